@@ -42,7 +42,7 @@ manifest = {
     "engines": [
         {"name": "lean4-proof+correspondence", "path": "lean/ (Lean 4 project: model, theorems), harness/ (translator, correspondence, oracles), check",
          "serves_properties": [c["property_id"] for c in checks],
-         "kind_free_text": "machine-checked Lean 4 theorems about a model of the code; model tied to /repo on every run by a Python-ast translator (kernel, blocks, tables) and by differential correspondence of the executable Lean model against the real package"}
+         "kind_free_text": "machine-checked Lean 4 theorems about a model of the code; the model is tied to /repo on every run (a) by translators that execute the current source on symbolic operands and print the recorded terms as Lean definitions (kernel, library blocks, read-out helpers, mode expansion, InPulse export/import) plus finite facts established by instrumented probes, each validated numerically against the running code, and (b) by differential correspondence of the executable Lean model (native driver: elimination loop, hierarchy, flatten, split, parameters, sweeps, wiring, monitors) against the real package in-process; independent numpy oracles search for failing inputs"}
     ],
     "checks": checks,
     "not_applicable": na,
